@@ -63,10 +63,20 @@ void yield_hint();            // scheduling point that counts as spinning
 // Monitor sections: hooks are ignored (no scheduling, no race recording) while quiet.
 void quiet_begin();
 void quiet_end();
+#ifdef XV_NATIVE
+// native builds (stock sanitizers, xrt/native.cpp): monitor sections are serialised by a recursive mutex that TSan ignores
+void monitor_enter();
+void monitor_leave();
+struct Quiet {
+  Quiet() { monitor_enter(); }
+  ~Quiet() { monitor_leave(); }
+};
+#else
 struct Quiet {
   Quiet() { quiet_begin(); }
   ~Quiet() { quiet_end(); }
 };
+#endif
 
 // Violations. The first violation of an episode/execution is kept; all are counted.
 void report(const char* kind, const char* fmt, ...) __attribute__((format(printf, 2, 3)));
